@@ -4,7 +4,7 @@ over real loopback sockets (grpc-go client, raw HTTP/1.1 connections); validated
 import json, os, time, random, collections
 from . import common as C
 
-FORMULAS = ["DeadlineSet", "MalformedRefused", "CancelReachesContext", "CancelReleases", "SpuriousDone"]
+FORMULAS = ["DeadlineSet", "MalformedRefused", "CancelReachesContext", "CancelReleases", "SpuriousDone", "SendAfterCancelFails"]
 
 
 def run(prop, tier, replay=None):
@@ -128,6 +128,32 @@ def run(prop, tier, replay=None):
         for fid, n in sorted(known.items()):
             f = next(x for x in findings if x["id"] == fid)
             print("KNOWN-FINDING: property=%s %s (%d observations this run)" % (prop, f["what"], n))
+        if not replay:
+            # a plain HTTP upload (HttpBody chunks read with Recv) whose connection breaks inside a chunk: the handler blocked in
+            # Recv is released with an error, not with a partial chunk followed by a clean end (PoolTrace: BrokenUploadIsError)
+            ups = [dict(fam="upload", id=i + 1, len=n, limit=L, mode=m) for i, (L, n, m) in enumerate(
+                (L, n, m) for L in (16, 64) for n in (3, L - 1, L, L + 1, 2 * L + 5, 5 * L) for m in ("broken", "brokendata"))]
+            up, ut = scratch.path("brokenups.jsonl"), scratch.path("brokenups.ndjson")
+            with open(up, "w") as f:
+                for u in ups:
+                    f.write(json.dumps(u) + "\n")
+            p, _ = C.run([harness, "conc", "-cases", up, "-out", ut, "-seed", str(seed), "-workers", "4"], timeout=900)
+            if p.returncode != 0:
+                raise C.Infra("upload driver failed:\n" + p.stdout[-3000:])
+            pr = C.validate_shards(scratch, "PoolTrace.tla", "PoolTrace.cfg", [(ut, sum(1 for _ in open(ut)))], timeout=900)[0]
+            ulines = open(ut).read().splitlines()
+            for f in pr["failed"]:
+                if f[2] not in ("BrokenUploadIsError", "Crash"):
+                    continue
+                ev = json.loads(ulines[f[1] - 1])
+                key = (f[2], "upload", ev["mode"])
+                if key in viol:
+                    viol[key]["more"] += 1
+                    continue
+                viol[key] = dict(property=prop, formula=f[2], seed=seed, cases=[ups[ev["case"] - 1]], observed=ev, more=0, replay_driver="conc",
+                                 signature=dict(module="Pool", formula=f[2], mode=ev["mode"]),
+                                 what="%s: HttpBody upload of %d bytes (chunk %d) that breaks off inside a chunk (%s): the handler's receive loop ended with %r after %d chunks %s" % (
+                                     f[2], ev["len"], ev["limit"], ev["mode"], ev.get("end"), ev["chunks"], ev["crash"][:80]))
         for i, (key, v) in enumerate(sorted(viol.items(), key=str)):
             if i >= 30:
                 break
